@@ -180,6 +180,22 @@ def check(F, rep, tier):
             rep.ok("R14.5", "static %s: %s" % (s.path.replace("crate::", ""), ty[:60]))
     rep.ok("R14.5", "no thread spawn in %d reachable functions" % len(local), nontrivial_key="nothreads")
     # ---- R14.6 dependencies: what is read from other programs does not depend on the locale or on logging settings ---------------
+    # ---- R14.7 every git process runs in the repository directory (-C), not in the caller's working directory ------------------------
+    ngit = 0
+    for p_, g_ in sorted(F.fns.items()):
+        if "crate::vcs::" not in p_ or "::tests" in p_: continue
+        news = [(bi, t) for bi, t in g_.calls() if (mir.callee(t) or "").endswith("process::Command::new") and t[2] and mir.const_arg(g_, t[2][0]) == "git"]
+        if not news: continue
+        ngit += len(news)
+        has_dir = any((mir.callee(t) or "").endswith("process::Command::current_dir") for bi, t in g_.calls())
+        argv_consts = [mir.const_arg(g_, t[2][1]) for bi, t in g_.calls() if (mir.callee(t) or "").endswith("process::Command::arg") and len(t[2]) > 1]
+        site = g_.where(); fk = p_.replace("crate::", "")
+        if has_dir: rep.ok("R14.7", "%s runs git with current_dir(<repository path>)" % fk.rsplit("::", 1)[-1], sample=site, nontrivial_key="gitdir" + fk)
+        elif argv_consts and all(a_ in ("--version", "version") for a_ in argv_consts) and not any((mir.callee(t) or "").endswith("process::Command::args") for bi, t in g_.calls()):
+            rep.ok("R14.7", "%s only asks `git --version` (no repository involved)" % fk.rsplit("::", 1)[-1], sample=site, nontrivial_key="gitver" + fk)
+        else:
+            rep.bad("R14.7", "git-in-callers-cwd:" + fk, "%s starts git without current_dir: the answer is taken from the process's working directory, not from the repository given with -C (from another repository with a tag of the same name the values of THAT repository are reported)" % fk, site)
+    rep.floor("R14.7", "git process constructions in crate::vcs", ngit, 2)
     core.borrow(F, rep, "c02", "C02", "R14.6", ("R02.4:argv:", "R02.4:unlisted-git-call"), "every git invocation is one of the audited machine-readable forms (format strings, --porcelain, --show-current): none parses text git translates")
     core.borrow(F, rep, "c18", "C18", "R14.6", ("R18.4:", "R18.5:", "R18.6:shared-argument-list"), "the Python wrapper returns the command's stdout only (stderr carries RUST_LOG-dependent, time-stamped log lines)")
     return core.finish(rep, explanation=EXPL, assumptions=ASSUME, trusted=TRUST)
